@@ -8,6 +8,7 @@ import (
 
 	sdcpb "github.com/sdcio/sdc-protos/sdcpb"
 	"github.com/sdcio/yang-parser/xpath"
+	"github.com/sdcio/yang-parser/xpath/xpathtest"
 	"github.com/sdcio/yang-parser/xpath/xutils"
 )
 
@@ -36,6 +37,9 @@ type mockTree struct {
 	// hands out the path it stores, not a copy (what an engine appends to it stays there)
 	keeps   bool
 	targets map[string]*mockEntry
+	// node sets the tree hands out as slices of arrays it keeps (names starting with "ns"): there is room behind the
+	// slice, and what is written there is written into the tree
+	backing map[string][]xutils.XpathNode
 }
 
 func hashStr(s string) uint32 {
@@ -151,6 +155,16 @@ func (e *mockEntry) lookup() mockVal {
 func (e *mockEntry) GetValue() (xpath.Datum, error) {
 	if err := e.t.tick("GetValue(" + canonPath(e.path) + ")"); err != nil {
 		return nil, err
+	}
+	if e.t.backing != nil && e.path != nil && len(e.path.Elem) > 0 && strings.HasPrefix(e.path.Elem[len(e.path.Elem)-1].Name, "ns") {
+		k := canonPath(e.path)
+		b := e.t.backing[k]
+		if b == nil {
+			b = make([]xutils.XpathNode, 1, 4)
+			b[0] = xpathtest.NewTLeaf(nil, xutils.PathType{}, "m", e.path.Elem[len(e.path.Elem)-1].Name, "v")
+			e.t.backing[k] = b
+		}
+		return xpath.NewNodesetDatum(b[:1]), nil
 	}
 	v := e.lookup()
 	switch v.Kind {
